@@ -2150,6 +2150,11 @@ def c14_checks(repo: Repo, tier: str, res: CheckResult, seed: int) -> None:
         res.evaluated("G:soundness:" + ident, True)
         refused = r["error"] is not None
         want = r["want"]
+        if refused and r["error"] not in ("ProviderNotFoundError", "AggregateCannotProvide", "CannotProvide", "ExceptionGroup"):
+            res.add(Finding("C14", "SOUND.refusal-is-a-crash", CPR, "coercer providers", f"{ident}: {r['error']}",
+                            f"asking for a converter {r['src']} -> {r['dst']} raises {r['error']}: a pair that cannot be coerced has to be "
+                            "REFUSED (ProviderNotFoundError with the reason), an internal error tells the user nothing about the field", 0))
+            continue
         if want == "refuse":
             if not refused:
                 arg = ""
